@@ -157,7 +157,8 @@ func init() {
 	c20 := &Property{ID: "C20", Pkgs: []string{"client/setec"}, Bounds: map[string]string{"fields": "one each of []byte, string, Secret, custom unmarshaler; values arbitrary; each lookup may fail"}}
 	c20.Harnesses = append(c20.Harnesses, ch("verifHarnessC20Parse", map[string]int{}, nil, []string{"end"}, "ParseFields + Apply on a fixed family of struct shapes (supported types, binary unmarshalers by value and by pointer, embedded struct, untagged fields; rejected: unsupported type, empty name with and without verb, no tags, non-pointer, non-struct), values symbolic; reflect is a go/types-backed model"))
 	c20.Harnesses = append(c20.Harnesses, ch("verifHarnessC20JSONField", map[string]int{}, nil, []string{"end"}, "a json-tagged field: accepted only if the whole secret is exactly one JSON document (syntactic class of the bytes is an uninterpreted function shared by Unmarshal and Decoder.Decode)"))
-	c20.Harnesses = append(c20.Harnesses, ch("verifHarnessC20Apply", map[string]int{}, nil, []string{"end"}, "Fields.Apply/Secrets on a hand-built field list: per-type assignment, private copy, naming, error isolation"))
+	c20.Harnesses = append(c20.Harnesses, ch("verifHarnessC20Apply", map[string]int{}, nil, []string{"end"}, "Fields.Apply/Secrets on the field list ParseFields builds for one struct with a field of each supported kind: per-type assignment, private copy, naming, error isolation"))
+	c20.Harnesses = append(c20.Harnesses, ch("verifHarnessC20Reapply", map[string]int{}, nil, []string{"end"}, "one parsed field list applied twice: to the same store after a newer version of every secret was installed, or to a second store with its own values and its own known/unknown split; every field then holds the current value of the store given to that Apply"))
 	propRegistry = append(propRegistry, c20)
 }
 
